@@ -266,10 +266,9 @@ var bsDestOther = []string{"nil", "nil-*string", "nil-*[]byte", "nil-*named-stri
 var bsDestNilIface = []string{"nil-*buffer", "nil-*builder", "nil-*bufio-writer", "nil-*readerfrom", "nil-*binunm", "nil-*binunm-strkind", "nil-*binunm-byteskind"}
 var textDestNilIface = []string{"nil-*textunm", "nil-*textunm-strkind"}
 
-// TRIAGE-PENDING (round 5, alarm /tmp/alarms5/C15-text-nil-textunmarshaler.*): TextConsumer calls UnmarshalText on
-// a nil pointer destination that implements encoding.TextUnmarshaler (non-empty input) and panics on the unchanged
-// tree. While the lead triages it, exactly these kinds are kept out of the generator for the TEXT codec; set to
-// false to drive them (replay files that name these kinds run whatever the switch says).
+// TextConsumer called UnmarshalText on a nil pointer destination that implements encoding.TextUnmarshaler (non-empty input)
+// and panicked in the user's method: repaired in the library by 5fbb442 and pinned. The kinds are generated for the text codec
+// (true would leave them out).
 const triagePendingTextNilUnmarshaler = false
 
 func init() {
